@@ -181,6 +181,9 @@ def iter_next(it, obj):
             if r.var == 1: return r
             obj.a = None
         return iter_next(it, obj.b)
+    if t is Agg and obj.ty in ('IntoIter', 'Iter'):
+        h = it.prog.exact.get('<cell::%s as Iterator>::next' % obj.ty)       # marwood's own list iterators: their MIR (registered by models_vm)
+        if h is not None: return h(it, None, [Ref(Cell(obj))])
     raise Unsupported('iter_next on %r' % (obj,))
 
 
@@ -738,7 +741,7 @@ def install(prog):
         if k == 'RangeFull': return sr
         raise Unsupported('str index ' + k)
 
-    @M(r'<str as PartialEq>::(eq|ne)|<String as PartialEq(?:<str>|<&str>|<String>)?>::(eq|ne)|<&str as PartialEq(?:<String>|<str>)?>::(eq|ne)|<str as PartialEq<String>>::(eq|ne)|core::str::traits::<impl PartialEq for str>::(eq|ne)|<(?:&str|String|str) as PartialEq<(?:&str|String|str)>>::(eq|ne)')
+    @M(r'<str as PartialEq>::(eq|ne)|<String as PartialEq(?:<str>|<&str>|<String>)?>::(eq|ne)|<&str as PartialEq(?:<String>|<str>)?>::(eq|ne)|<str as PartialEq<String>>::(eq|ne)|core::str::traits::<impl PartialEq for str>::(eq|ne)|<(?:&str|String|str) as PartialEq<(?:&str|String|str)>>::(eq|ne)|<&String as PartialEq>::(eq|ne)')
     def _(it, m, a):
         x, y = as_str(it, a[0]), as_str(it, a[1])
         r = chars_equal(it, x.chars(), y.chars())
@@ -808,6 +811,17 @@ def install(prog):
         if pk.peeked is None: pk.peeked = iter_next(it, pk.it)
         if pk.peeked.var == 0: return mk_none()
         return mk_some(Ref(Cell(pk.peeked), (0,)))
+
+    @M(r'<Peekable<.*> as ExactSizeIterator>::len')
+    def _(it, m, a):
+        pk = deref(a[0])
+        n = 0
+        if pk.peeked is not None:
+            if pk.peeked.var == 0: return 0
+            n = 1
+        inner = it.clone(unbox(pk.it))            # count on a copy: the iterator itself is not advanced
+        while iter_next(it, inner).var == 1: n += 1
+        return n
 
     @M(r'<.* as Iterator>::next')
     def _(it, m, a): return iter_next(it, a[0])
@@ -1167,7 +1181,7 @@ def install(prog):
     @M(r'Rc::<.*>::as_ptr')
     def _(it, m, a): return deref1(a[0])
 
-    @M(r'<Box<.*> as (Deref|AsRef<.*>)>::(deref|as_ref)|<Box<.*> as DerefMut>::deref_mut')
+    @M(r'<Box<.*> as (Deref|AsRef<.*>|Borrow<.*>)>::(deref|as_ref|borrow)|<Box<.*> as DerefMut>::deref_mut')
     def _(it, m, a):
         b = deref(a[0]) if isinstance(a[0], Ref) else a[0]
         return b.f[0].f[0].f[0]
